@@ -69,7 +69,10 @@ def oserror_is_genuine(root, end):
     if isinstance(fn, bytes):
         fn = os.fsdecode(fn)
     try:
-        os.stat(fn)
+        st = os.stat(fn)
+        import stat as _stat
+        if not (_stat.S_ISREG(st.st_mode) or _stat.S_ISDIR(st.st_mode)):
+            return True                  # a special file: not to be opened (a FIFO would block)
         with open(fn, 'rb'):
             pass
     except IsADirectoryError:
@@ -421,6 +424,22 @@ def corpus(ctx, drv):
                 if end.get('status') == 0:
                     update_case(ctx, drv, root, 'update', 'dev-foo/bar', {'hashes': ['SHA1'], 'profile': prof}, f'corpus/update-sub-{prof}/{variant}')
                     verify_case(ctx, drv, root, '', False, 'corpus/verify-after')
+            finally:
+                trees.rmtree(root)
+    # F20: a named pipe called like a Manifest, unregistered / in the place of a registered sub-Manifest: every command ends
+    for variant in ('unregistered', 'registered'):
+        for what, p in (('update', ''), ('update', 'sub'), ('create', ''), ('verify', '')):
+            root = tree(['DATA a 1 SHA1 86f7e437faa5a7fce15d1ddcb9eaeaea377667b8'] +
+                        (['MANIFEST sub/Manifest 0'] if variant == 'registered' else []))
+            try:
+                os.mkfifo(os.path.join(root, 'sub', 'Manifest' if variant == 'registered' else 'Manifest.gz'))
+                extra = {'variant': 'fifo-named-manifest/' + variant}
+                if what == 'verify':
+                    verify_case(ctx, drv, root, p, True, 'corpus/fifo/verify', extra)
+                else:
+                    if what == 'create':
+                        os.unlink(os.path.join(root, 'Manifest'))
+                    update_case(ctx, drv, root, what, p, {'hashes': ['SHA1'], 'profile': 'default'}, 'corpus/fifo/' + what, scen_extra=extra)
             finally:
                 trees.rmtree(root)
     # F26: default-profile create, then ebuild-profile update, with a default-ignored file present / gone meanwhile
